@@ -496,23 +496,58 @@ func (e *env) replayCorpus(t *testing.T) {
 			continue
 		}
 		var doc struct {
+			API *struct {
+				MaxTx int `json:"max_tx"`
+				Rule  int `json:"rule"`
+			} `json:"api"`
 			Ops [][]json.RawMessage `json:"ops"`
 		}
 		if json.Unmarshal(b, &doc) != nil || len(doc.Ops) == 0 {
 			continue
 		}
+		tagOf := func(o []json.RawMessage) (tag string) { json.Unmarshal(o[0], &tag); return }
+		num := func(o []json.RawMessage, i int) int64 { var v int64; json.Unmarshal(o[i], &v); return v }
+		insArgs := func(o []json.RawMessage) (kinds []int, extra []sn) {
+			json.Unmarshal(o[3], &kinds)
+			if len(o) > 5 {
+				var xs [][2]uint64
+				json.Unmarshal(o[5], &xs)
+				for _, x := range xs {
+					extra = append(extra, sn{int(x[0]), x[1]})
+				}
+			}
+			return
+		}
+		if doc.API != nil { // the whole API with an open iterator: i / r / o(pen) / n(ext) / ns (NextSenderTx) / e (IsEmpty)
+			a := e.newAPIHist(doc.API.MaxTx, doc.API.Rule)
+			for _, o := range doc.Ops {
+				switch tagOf(o) {
+				case "i":
+					kinds, extra := insArgs(o)
+					a.insert(e, int(num(o, 1)), uint64(num(o, 2)), kinds, num(o, 4), extra...)
+				case "r":
+					a.remove(e, int(num(o, 1)), uint64(num(o, 2)))
+				case "o":
+					a.open(e)
+				case "n":
+					a.next(e)
+				case "ns":
+					a.nextSender(e, int(num(o, 1)))
+				case "e":
+					a.isEmpty(e)
+				}
+			}
+			a.finish(e)
+			continue
+		}
 		h := e.newHist()
 		for _, o := range doc.Ops {
-			var tag string
-			json.Unmarshal(o[0], &tag)
-			num := func(i int) int64 { var v int64; json.Unmarshal(o[i], &v); return v }
-			switch tag {
+			switch tagOf(o) {
 			case "i":
-				var kinds []int
-				json.Unmarshal(o[3], &kinds)
-				h.insert(e, int(num(1)), uint64(num(2)), kinds, num(4))
+				kinds, extra := insArgs(o)
+				h.insert(e, int(num(o, 1)), uint64(num(o, 2)), kinds, num(o, 4), extra...)
 			case "r":
-				h.remove(e, int(num(1)), uint64(num(2)))
+				h.remove(e, int(num(o, 1)), uint64(num(o, 2)))
 			case "s":
 				h.selectOp(e)
 			}
